@@ -286,7 +286,7 @@ fn main() {
     for _ in 0..n_st {
         let nd = [1usize, 1, 2, 2, 3][rng.random_range(0..5)];
         let specs = (0..nd).map(|_| draw_spec()).collect();
-        let h = generate::random_history(&mut rng, specs);
+        let h = if rng.random_range(0..3) == 0 { generate::writable_history(&mut rng, specs) } else { generate::random_history(&mut rng, specs) };
         cases.push(("random".into(), st_case(&h)));
     }
     let n_mt = check.tier.pick(50usize, 1000);
